@@ -9,8 +9,33 @@ PROPS = {
                  "(nine clauses evaluated per day: ctor, fields, derived, succ, anchor, instant, order, monthend, kernel); pairs are "
                  "distinct by (ka,kb) fingerprint"),
         "assumptions": ["the day odometer (textbook leap rule, 12-entry month table) is the reference; cross-checked against Hinnant's closed forms at every slice hand-over and against Python datetime in setup"],
+        "manifest": {
+            "technique": "runtime monitoring: exhaustive day-odometer walk over the public API with a reference-model oracle",
+            "text": "Thorough tier enumerates all 200 000 002 days of the supported range (exhaustive: true in evidence) and evaluates nine oracle clauses per day against an independent day odometer; quick tier walks ~1.1e6 boundary-directed days plus 2e6 random days and 1e6 random pairs. A clean thorough run means the statement holds for every day of the finite range for the listed public entry points.",
+            "note": "Trusted: the odometer reference model (textbook leap rule), rustc. Nothing is said about non-ISO calendars (C16).",
+        },
+    },
+    "C07": {
+        "builds": ["chk"],
+        "rule": ("(a) hook sweep, exhaustive for the stated space: round_i128 for inc in 1..=64, {100,125,1000,999999937} x every x in [-3inc,3inc] and "
+                 "{1e9,60e9,3600e9,86400e9} x residues {0,1,inc/2-1,floor,ceil,inc/2+1,inc-1} x k in -3..3; round_f64 for inc 1..=12 x every x=n/64 in "
+                 "[-3inc,3inc]; all 9 modes. (b) public entry points: PlainTime/PlainDateTime/Instant::round (every unit x every admissible increment "
+                 "x 9 modes x offsets {exact, +1, below-half, tie/floor-half, ceil-half, above-half, inc-1, random} + random fill), until/since of "
+                 "PlainTime/PlainDateTime/Instant with smallestUnit/increment/mode (x 3 largest-unit choices) and PlainDate with day increments, "
+                 "toString of PlainTime/PlainDateTime/Instant/ZonedDateTime with Digit(0..9)/smallestUnit x 9 modes decoded from the printed digits. "
+                 "non-trivial = the exact value is not a multiple of the increment; distinct = (op,value,step,mode) fingerprint; ties counted per op"),
+        "assumptions": ["refmodel::round (exact integer/rational RoundNumberToIncrement, 60 lines) is the oracle",
+                        "halfEven ties of wall-clock rounding accept either parity origin (midnight or enclosing unit) when they differ; counted as halfeven_origin_ambiguous"],
+        "manifest": {
+            "technique": "runtime monitoring: exact-rational rounding oracle over an exhaustive residue-class sweep (hooks) and directed+random public-API workloads",
+            "text": "Every rounded result observed at the public API (round, until/since, toString precision) and at the rounding-kernel hooks is compared with exact RoundNumberToIncrement. The hook sweep enumerates its stated space completely (all residues, both signs, nine modes, integer and float instantiation); the public workloads hit every (unit, increment, mode, position-in-step) cell on every run plus seeded random fill. A clean run means no observed rounding differed; values not generated are not covered.",
+            "note": "Trusted: refmodel::round. Negative values use sign-aware modes for every type (the property's plain reading).",
+        },
     },
 }
+
+
+NOT_CLAIMED = {}
 
 
 def setup(ctx):
